@@ -3,7 +3,7 @@ impl WriteBatch {
     /// what the constructors and builder methods must establish (C02: in automatic persist mode a batch is flushed
     /// to the OS before it is acknowledged; C01: only plain values and tombstones are batched)
     pub open spec fn wf(&self, w: World) -> bool {
-        &&& self.db.is_poisoned.id@ == w.db_poison
+        &&& self.db.is_poisoned.id@ == w.db_poison && sup_wf(&self.db.supervisor)
         &&& (self.durability is None ==> w.db_manual_persist)
         &&& self.data@.len() <= 0x7fff_ffff       // stated bound: at most 2^31 items per batch
         &&& items_within_limits(self.data@)
